@@ -4,7 +4,7 @@ from __future__ import annotations
 
 from ..gen import text_classes, is_trivial_text
 from ..obs import guarded, is_exc
-from ..ops import OpGen, apply, op_name, walk_texts, enc_arg
+from ..ops import OpGen, apply, op_name, walk_texts, touch_all, enc_arg
 from ..wf import wf_errors
 
 LEVEL = "exploration"
@@ -86,8 +86,8 @@ def entry_ops(t):
     return out
 
 
-def judge(ctx, entry, op, sig):
-    r = guarded(apply, op)
+def judge(ctx, entry, op, sig, touched=False):
+    r = guarded(apply, op, touch_all if touched else None)
     if is_exc(r):
         ctx.ev(sig + ("exc:" + r.type,) if sig else None)
         if r.type in ("ValueError", "TypeError") or r.type.startswith("Unicode") or r.type in ("IDNAError", "InvalidCodepoint", "InvalidCodepointContext", "IDNABidiError"):
@@ -134,7 +134,7 @@ def run(ctx):
         texts = walk_texts(op)
         triv = all(is_trivial_text(t) for t in texts)
         cls = "".join(sorted(set("".join(text_classes(t) for t in texts[:6]))))[:24]
-        judge(ctx, op_name(op), op, None if triv else (op_name(op), cls))
+        judge(ctx, op_name(op), op, None if triv else (op_name(op), cls), touched=k % 2 == 1)
         if k % 2003 == 0:
             ctx.sample({"op": op})
 
